@@ -431,8 +431,7 @@ func rulePanicMisc(p *Prog, r *Report) {
 					if x.Op == token.SHL || x.Op == token.SHR {
 						if _, ok := constInt(x.Y); !ok {
 							if b, ok := x.Y.Type().Underlying().(*types.Basic); ok && b.Info()&types.IsUnsigned == 0 {
-								yt, yo := f.intTerm(x.Y)
-								if !f.prove(point{blk, idx}, goal{zeroT, yt, yo}, nil, 0) {
+								if !proveNonNeg(f, point{blk, idx}, x.Y, 0) {
 									r.Bad("R-PANIC-MISC", fk+": shift by "+describeAddr(x.Y), pos, "signed shift count not proven non-negative")
 								}
 							}
@@ -489,4 +488,27 @@ func truncate(s string, n int) string {
 
 func init() {
 	register("C06", "Panic-freedom, termination and result discipline decided for every function reachable from the 20x7 public operations, vers.Contains and the CLI: (R-PANIC-BOUNDS) every index/slice expression proven in range by a difference-constraint prover over SSA (dominating conditions, std postconditions incl. constant-regexp group counts, Houdini loop invariants, path splitting, constructor field invariants, callee summaries); (R-PANIC-NIL) every dereference proven non-nil by an access-path analysis rooted at construction sites; (R-PANIC-ASSERT) tagged-union discipline for unchecked type assertions; (R-PANIC-MISC) no explicit panic, division, bad make/Repeat/MustCompile; (R-TERM) every loop in a terminating class, recursion guarded; (R-PAIR) value xor error at every return of every (*T, error) function; (R-ERRFALSE) (bool, error) returns false with an error; (R-EXIT) CLI exit codes.", rulePair, ruleErrFalse, ruleExit, rulePanicMisc)
+}
+
+// proveNonNeg: v >= 0, looking through multiplication by a positive constant and "constant - x"
+func proveNonNeg(f *bpFn, pt point, v ssa.Value, depth int) bool {
+	if b, ok := v.(*ssa.BinOp); ok && depth < 3 {
+		switch b.Op {
+		case token.MUL:
+			if c, ok := constInt(b.X); ok && c > 0 {
+				return proveNonNeg(f, pt, b.Y, depth+1)
+			}
+			if c, ok := constInt(b.Y); ok && c > 0 {
+				return proveNonNeg(f, pt, b.X, depth+1)
+			}
+		case token.SUB:
+			if c, ok := constInt(b.X); ok {
+				// c - y >= 0  <=>  y <= c
+				yt, yo := f.intTerm(b.Y)
+				return f.prove(pt, goal{yt, zeroT, c - yo}, nil, 0)
+			}
+		}
+	}
+	yt, yo := f.intTerm(v)
+	return f.prove(pt, goal{zeroT, yt, yo}, nil, 0)
 }
